@@ -13,7 +13,7 @@ Next == UNCHANGED i
 
 Good(v) ==
   IF v.kind = "encode" THEN EncodeOK(v.b, v.qs, v.exp, v.limit)
-  ELSE IF v.kind = "query" THEN QueryOK(v.b, v.name, v.type, v.randcase = 1, v.edns)
+  ELSE IF v.kind = "query" THEN \E k \in 1..Len(v.names) : QueryOK(v.b, v.names[k], v.type, v.randcase = 1, v.edns)
   ELSE FALSE
 Why(v) ==
   IF v.kind = "encode" THEN EncodeWhy(v.b, v.qs, v.exp, v.limit)
@@ -21,7 +21,7 @@ Why(v) ==
        IF ~d.hdr \/ ~d.ok THEN "not a well-formed message"
        ELSE IF ~d.exact THEN "trailing bytes after the announced records (malformed question section)"
        ELSE IF d.cnt[1] # 1 THEN "not exactly one question"
-       ELSE IF ~NameEq(d.q[1].n, v.name, v.randcase = 1) THEN "question name differs from the requested name"
+       ELSE IF ~\E k \in 1..Len(v.names) : NameEq(d.q[1].n, v.names[k], v.randcase = 1) THEN "question name differs from the requested name"
        ELSE "header / type / class / OPT differ"
 Report == Good(V[i]) \/ PrintT(ToJson([fail |-> i, why |-> Why(V[i])]))
 (* vacuity guard: the file really contains vectors of the expected kinds *)
